@@ -263,7 +263,43 @@ def correspondence(ctx):
     ctx.counters['nontrivial'] = nt
 
 
+def switch_case(rng):
+    """a tal:switch whose value and every case value are recorder calls, the case bodies too: which expressions run, how often, in
+    which order — in particular nothing of the cases that follow the matching one"""
+    sv = rng.choice([1, 2, 3])
+    cases = []
+    for i in range(rng.randint(2, 5)):
+        cases.append(('default', None) if rng.random() < 0.2 else ('val', rng.choice([1, 2, 3])))
+    src = '<div tal:switch="R(\'sw\', %d)">' % sv
+    ideal, like, out = ['sw'], ['sw'], ''
+    matched = False
+    for i, (k, v) in enumerate(cases):
+        e = 'default' if k == 'default' else "R('c%d', %d)" % (i, v)
+        src += '<p tal:case="%s">${R(\'b%d\', %d)}</p>' % (e, i, i)
+        if matched:
+            continue
+        if k == 'val':
+            ideal.append('c%d' % i)
+            like.append('c%d' % i)
+            if v != sv:
+                like.append('c%d' % i)      # D-04a: compared with the switch value, then with the default marker
+                continue
+        matched = True
+        ideal.append('b%d' % i)
+        like.append('b%d' % i)
+        out = '<p>%d</p>' % i
+    src += '</div>'
+    return {'src': src, 'vars': [['R', {'fn': 'R'}]], 'objs': []}, ideal, like, '<div>%s</div>' % out
+
+
 def oracle(ctx):
+    sw = [switch_case(ctx.rng) for _ in range(ctx.budget(300, 10000))]
+    for (case, ideal, like, out), r in zip(sw, pipeline.impl_many([s[0] for s in sw])):
+        ctx.count('evaluations')
+        if r.get('out') != out or r.get('log') != ideal:
+            ctx.violation('tal:switch: every case up to the matching one is evaluated once, in order, the matching case renders, and nothing of '
+                          'the later cases is evaluated', case, expected={'out': out, 'log': ideal}, actual=r,
+                          finding='D-04a' if (r.get('out') == out and r.get('log') == like) else None)
     from chameleon import PageTemplate
     nt = 0
     # pipes: first alternative that does not raise a lookup-type exception; others propagate; evaluated once, in order
